@@ -13,7 +13,7 @@ import re
 
 CODES = ["AT", "NL", "GB", "CH", "SE", "DK", "LU", "IE", "LT", "LV", "GR", "HU", "RO", "BG", "HR", "CY", "MT",
          "LI", "AD", "AE"]
-NAME_ALPHABET = "abcdefghijklmnopqrstuvwxyz0123456789_"
+NAME_ALPHABET = "abcdefghijklmnopqrstuvwxyz0123456789_"  # plus '-' and inner dots, see gen_names
 
 
 # ---------------------------------------------------------------------------------------------
@@ -130,8 +130,15 @@ def gen_names(rng, n: int, v2_flags: list[bool] | None = None) -> list[str]:
                 (("_" + NAME_ALPHABET[rng.randrange(26)]) if rng.random() < 0.5 else "")
         else:
             stem = "".join(NAME_ALPHABET[rng.randrange(len(NAME_ALPHABET))] for _ in range(1 + rng.randrange(6)))
+        r = rng.random()
+        if r < 0.15 and names:  # "overwrite-local.json" next to "overwrite.json": '-' sorts before '.'
+            stem = names[rng.randrange(len(names))].split(".")[0] + "-" + NAME_ALPHABET[rng.randrange(26)]
+        elif r < 0.3 and names:  # "generated.early.json" next to "generated.json": a dotted part before ".json"
+            stem = names[rng.randrange(len(names))].split(".")[0] + "." + rng.choice(["early", "fix", "a", "zz", "0"])
+        elif r < 0.35:
+            stem = stem + rng.choice(["-x", ".local", "-1"])
         is_v2 = bool(v2_flags and v2_flags[len(names)])
-        if stem.endswith("v2"):
+        if stem.endswith("v2") or stem.startswith("."):
             continue  # a non-v2 file whose stem ends in "v2" would be ambiguous; not generated
         name = stem + (".v2.json" if is_v2 else ".json")
         if name not in names:
